@@ -462,7 +462,7 @@ Section Consistency.
     (valid_digest rf = true -> d_dg d = rf) /\
     match nstr (r_dig r) with
     | [] => if hd then d_dg d = rf /\ valid_digest rf = true
-            else d_dg d = H (r_body r) /\ (limit <? len (r_body r)) = false
+            else d_dg d = H (hashed_body limit r) /\ (limit <? d_sz d) = false
     | sd => sd = d_dg d /\ valid_digest sd = true
     end.
   Proof.
@@ -475,11 +475,11 @@ Section Consistency.
         * destruct rf as [|y rf]; [discriminate|].
           rewrite str_eqb_refl. cbn [negb]. intro X; injection X as <-. cbn. auto.
         * destruct rf as [|y rf]; [discriminate|].
-          destruct (limit <? len (r_body r)) eqn:El; [discriminate|].
-          destruct (str_eqb (y :: rf) (H (r_body r))) eqn:Eq; cbn [negb]; [|discriminate].
+          destruct (limit <? n) eqn:El; [discriminate|].
+          destruct (str_eqb (y :: rf) (H (hashed_body limit r))) eqn:Eq; cbn [negb]; [|discriminate].
           apply str_eqb_spec in Eq. intro X; injection X as <-. cbn. auto.
       + destruct hd; [discriminate|].
-        destruct (limit <? len (r_body r)) eqn:El; [discriminate|].
+        destruct (limit <? n) eqn:El; [discriminate|].
         intro X; injection X as <-. cbn.
         repeat split; auto. discriminate.
     - destruct (valid_digest (x :: sd)) eqn:Vs; cbn [negb]; [|discriminate].
@@ -544,9 +544,10 @@ Section Consistency.
   Theorem man_fetchref_consistent s rs s' t d c :
     man_fetchref H parse_mt main user_mts limit srv exch s rs = (s', t, RDescBytes d c) ->
     exists rf q r rest, resolve_ref main rs = Some rf /\ t = (q, r) :: rest /\
-      r_status r = 200 /\ c = r_body r /\
-      ((rest = [] /\ gen_desc H parse_mt limit r rf false = Some d) \/
-       (r_clen r = None /\ dig_consistent r (d_dg d) /\
+      r_status r = 200 /\
+      ((rest = [] /\ gen_desc H parse_mt limit r rf false = Some d /\
+        c = match nstr (r_dig r) with [] => hashed_body limit r | _ => r_body r end) \/
+       (r_clen r = None /\ c = r_body r /\ dig_consistent r (d_dg d) /\
         exists q2 r2, rest = [(q2, r2)] /\ r_status r2 = 200 /\
                       gen_desc H parse_mt limit r2 rf true = Some d)).
   Proof.
@@ -554,7 +555,7 @@ Section Consistency.
     destruct (exch s _) as [s1 r].
     destruct (r_status r =? 200) eqn:Es.
     - apply N.eqb_eq in Es. destruct (r_clen r) as [n|] eqn:Ec.
-      + intro X. injection X as _ <- X. eexists rf, _, r, []. repeat (split; [reflexivity|]).
+      + intro X. injection X as _ <- X. eexists rf, _, r, []. repeat (split; [reflexivity|]). split; [exact Es|].
         destruct (gen_desc H parse_mt limit r rf false); [|discriminate]. injection X as <- <-. auto.
       + destruct (man_resolve _ _ _ _ _ _ _ s1 rs) as [[s2 t2] res2] eqn:E2.
         intro X. injection X as _ <- X.
@@ -563,8 +564,8 @@ Section Consistency.
         injection X as <- <-. apply verify_digest_spec in Ev.
         apply man_resolve_consistent in E2 as (rf' & q2 & r2 & ER' & -> & _ & Es2 & G).
         rewrite ER in ER'. injection ER' as <-.
-        eexists rf, _, r, _. repeat (split; [reflexivity|]). split; [exact Es|]. split; [reflexivity|].
-        right. split; [exact Ec|]. split; [exact Ev|]. eauto.
+        eexists rf, _, r, _. repeat (split; [reflexivity|]). split; [exact Es|].
+        right. split; [exact Ec|]. split; [reflexivity|]. split; [exact Ev|]. eauto.
     - intro X. injection X as _ _ X. destruct (r_status r =? 404); discriminate.
   Qed.
 
